@@ -100,6 +100,10 @@ pub struct ReplayFile {
     pub sched: Option<SchedSpec>,
     #[serde(default, skip_serializing_if = "Option::is_none")]
     pub aisle: Option<c11::AisleScenario>,
+    /// a storm of distinct unknown words on one parser (class `history-dependence`): seed and the
+    /// number of words after which a probe recipe changed
+    #[serde(default, skip_serializing_if = "Option::is_none")]
+    pub storm: Option<StormCase>,
     /// a chain of nested parses (class `depth-dependence`)
     #[serde(default, skip_serializing_if = "Option::is_none")]
     pub depth: Option<c18::DepthCase>,
@@ -277,6 +281,7 @@ fn c18_worker(a: &Args) -> i32 {
                 sched: None,
                 aisle: None,
                 depth: None,
+                storm: None,
                 violations: rp.violations.clone(),
                 minimised: false,
                 notes: vec![],
@@ -350,6 +355,7 @@ fn c18_worker(a: &Args) -> i32 {
                     sched: Some(SchedSpec::List { choices: st.choices.clone() }),
                     aisle: None,
                 depth: None,
+                storm: None,
                     violations: viol.clone(),
                     minimised: false,
                     notes: vec![format!("found under {sched:?}")],
@@ -479,6 +485,7 @@ fn depth_worker(a: &Args) -> i32 {
                 sched: None,
                 aisle: None,
                 depth: Some(dc.clone()),
+                storm: None,
                 violations: v.clone(),
                 minimised: false,
                 notes: vec![],
@@ -558,6 +565,97 @@ fn bigfp(a: &Args) -> i32 {
     0
 }
 
+#[derive(Clone, Debug, Serialize, Deserialize, PartialEq)]
+pub struct StormCase {
+    pub seed: u64,
+    pub words: u64,
+    pub converter: String,
+}
+
+const STORM_PROBES: &[&str] = &[
+    "Simmer for 10 min, then ~{10%min} and ~{1%h}.\n",
+    "Add @flour{200%g} and @milk{250%ml}, 2 cups of water, 1 tbsp oil.\n",
+    "Heat to 180 °C for 2 h. Add @sugar{1%kg} @water{1%l} @salt{1%tsp} @butter{4%oz} @rice{1%lb}.\n",
+    ">> time: 1 h 30 min\n>> prep time: 20 minutes\nRest ~{45%s} and 3 day old bread, 5 min.\n",
+];
+
+/// One parser, `words` DISTINCT unknown words through everything that looks a unit up (the public
+/// `find_unit`, and every 64th word a tiny parse that uses it as a unit, as a timer unit and in
+/// running text), and after every `check_every` words the probe recipes again: they must read as
+/// they did on a never-used parser. The history axis of "for all sequences of inputs" in its
+/// cheapest form - distinct keys by the million - for tables that fill up, spill, rehash, evict or
+/// take a fingerprint for the key. Returns (violation, words done at that point).
+fn run_storm(seed: u64, words: u64, converter: &str, check_every: u64) -> (Vec<(Violation, u64)>, u64) {
+    let cfg = scenario::ParserCfg { ext_bits: scenario::EXT_ALL, converter: converter.to_string() };
+    let reference = c18::build_parser(&cfg);
+    let fp = |p: &cooklang::CooklangParser, t: &str| match std::panic::catch_unwind(std::panic::AssertUnwindSafe(|| format!("{:?}", p.parse(t)))) {
+        Ok(s) => s,
+        Err(_) => {
+            let _ = sim::take_last_panic();
+            "LIBRARY-PANIC".to_string()
+        }
+    };
+    let refs: Vec<String> = STORM_PROBES.iter().map(|t| fp(&reference, t)).collect();
+    let p = c18::build_parser(&cfg);
+    let mut r = rng::Rng::new(mix3(seed, 0x5702, 0));
+    let mut out = Vec::new();
+    let mut w = String::new();
+    const A: &[u8] = b"abcdefghijklmnopqrstuvwxyz";
+    for i in 1..=words {
+        w.clear();
+        let x = r.next_u64();
+        let len = 3 + (x % 7) as usize;
+        let mut y = x >> 3;
+        for _ in 0..len {
+            w.push(A[(y % 26) as usize] as char);
+            y /= 26;
+        }
+        let _ = std::panic::catch_unwind(std::panic::AssertUnwindSafe(|| p.converter().find_unit(&w).is_some()));
+        if i % 64 == 0 {
+            let t = format!("Fold in 3 {w} of @mix{{2%{w}}} for ~{{5%{w}}}.\n");
+            let _ = std::panic::catch_unwind(std::panic::AssertUnwindSafe(|| p.parse(&t).is_valid()));
+        }
+        if i % check_every == 0 || i == words {
+            for (k, t) in STORM_PROBES.iter().enumerate() {
+                let got = fp(&p, t);
+                if got != refs[k] {
+                    out.push((Violation { class: "history-dependence".into(), key: format!("{}|storm", cfg.key()), phase: "storm".into(),
+                        detail: format!("after {i} distinct unknown words on one parser (the last one {w:?}) the probe recipe {t:?} reads differently than on a never-used parser") }, i));
+                    return (out, i);
+                }
+            }
+        }
+    }
+    (out, words)
+}
+
+fn storm(a: &Args) -> i32 {
+    let t0 = std::time::Instant::now();
+    let seed = a.u64("seed", 1);
+    let words = a.u64("words", 1_000_000);
+    let worker = a.u64("worker", 0);
+    let out_path = a.str("out", "");
+    let replay_dir = a.str("replay-dir", "/verif/replays");
+    let converter = if worker % 3 == 2 { "custom-de" } else { "bundled" };
+    let s = mix3(seed, 0x5701, worker);
+    let (v, done) = run_storm(s, words, converter, 64);
+    let mut violations: Vec<serde_json::Value> = Vec::new();
+    if let Some((viol, at)) = v.first() {
+        let rf = ReplayFile { property: "C18".into(), class: viol.class.clone(), provenance: None, prefix_run_indexes: vec![], scenario: None, sched: None, aisle: None, depth: None,
+            storm: Some(StormCase { seed: s, words: *at, converter: converter.to_string() }), violations: vec![viol.clone()], minimised: false,
+            notes: vec!["replay repeats the storm up to that word on a fresh parser (the sequence is a function of the seed)".into()] };
+        let p = write_replay(&replay_dir, &format!("C18-storm-{worker}"), &rf);
+        violations.push(serde_json::json!({"class": rf.class, "replay": p, "detail": viol.detail, "key": viol.key, "phase": viol.phase}));
+    }
+    let js = serde_json::json!({"property": "C18", "mode": "storm", "words": done, "converter": converter, "probes": STORM_PROBES.len(), "violations": violations, "wall_s": t0.elapsed().as_secs_f64()});
+    if out_path.is_empty() {
+        println!("{js}");
+    } else {
+        std::fs::write(&out_path, js.to_string()).unwrap_or_else(|e| die(&format!("{out_path}: {e}")));
+    }
+    if violations.is_empty() { 0 } else { 1 }
+}
+
 fn replay(a: &Args) -> i32 {
     let path = a.pos.get(1).cloned().unwrap_or_else(|| die("replay needs a file"));
     let text = std::fs::read_to_string(&path).unwrap_or_else(|e| die(&format!("{path}: {e}")));
@@ -591,6 +689,11 @@ pub fn replay_file(rf: &ReplayFile, a: &Args) -> (Vec<Violation>, Vec<String>) {
         let sc = rf.aisle.clone().unwrap_or_else(|| die("C11 replay without aisle scenario"));
         let (v, _) = c11::execute(&sc);
         return (v, log);
+    }
+    if let Some(sc) = &rf.storm {
+        let (v, n) = run_storm(sc.seed, sc.words, &sc.converter, 64);
+        log.push(format!("executed: {n} distinct words looked up on one parser"));
+        return (v.into_iter().map(|x| x.0).collect(), log);
     }
     if let Some(dc) = &rf.depth {
         let (v, n) = c18::run_depth_case(dc);
@@ -680,6 +783,7 @@ fn dispatch(cmd: &str, a: &Args) -> i32 {
         "c18" => c18_worker(a),
         "depth" => depth_worker(a),
         "bigfp" => bigfp(a),
+        "storm" => storm(a),
         "c11" => c11::worker(a),
         "replay" => replay(a),
         "minimise" => minimise::run(a),
